@@ -1,8 +1,399 @@
 package main
 
-import "capnproto.org/go/capnp/v3/zverif/common"
+// C08 — a hostile or buggy peer cannot crash or wedge a connection.
+//
+// One case = one connection: a healthy history (bootstrap both ways, a call
+// in flight in each direction, exports, imports, an embargo) is run up to a
+// random step, then 1..8 hostile items are injected, each followed by a
+// probe, then the rest of the history runs (tolerating whatever the Conn now
+// does), then Close and the post-mortem oracles.
+//
+//   mode fuzz        message-level pipe transport
+//   mode fuzzstream  same generator over the real stream / packed transports
+//   mode bytes       byte-level: pointer corruption of valid messages,
+//                    truncated frames, hostile stream headers (stream links)
+
+import (
+	"encoding/binary"
+	"fmt"
+	"sync"
+
+	"capnproto.org/go/capnp/v3"
+	"capnproto.org/go/capnp/v3/zverif/common"
+	rpccp "capnproto.org/go/capnp/v3/std/capnp/rpc"
+)
+
+const probeBase = 0x40000000
+
+type c08case struct {
+	rec     *common.Recorder
+	mode    string
+	rng     *common.RNG
+	link    string
+	kinds   []string // hostile kinds, chosen before the run (CASE line)
+	inject  int      // step number at which to inject
+	items   []string // concretised descriptions (for the replay input)
+	probes  uint32
+	aborted bool
+}
+
+var c08Steps = 9
+
+// c08History is the healthy history.  Each sc.step is an injection point.
+func c08History(sc *sctx) {
+	b := sc.b
+	p := b.peer
+	p.setNoDisembargo(true) // keep the embargo table non-empty
+	// 1-2: bootstrap + resolve (import live)
+	bc := sc.bootResolved()
+	// 3: a local call in flight (question live)
+	sc.step("held-outgoing-call")
+	hdone := make(chan struct{})
+	hch := b.goCall("held", sc.ctx, bc, mHold, 0)
+	go func() { <-hch; close(hdone) }()
+	sc.wait("held-call-seen", func() bool { return p.sawCall(mHold, 1) != nil }, hdone)
+	// 4: the peer bootstraps (export live, answer returned, Finish withheld)
+	sc.step("peer-bootstrap")
+	qb := p.newManualQuestion()
+	p.send(mkBootstrap(qb))
+	sc.wait("bootstrap-return", func() bool { return p.sawReturn(qb) != nil })
+	p.mu.Lock()
+	exp, _ := exportFromReturn(p.sawReturn(qb))
+	p.mu.Unlock()
+	// 5: an incoming call in flight (answer live) and a pipelined call on it
+	sc.step("held-incoming-call")
+	qh := p.newManualQuestion()
+	p.send(mkCall(qh, func(t rpccp.MessageTarget) { t.SetImportedCap(exp) }, ifaceID, mHold, 0, nil))
+	qp := p.sendCallPromised(qh, []uint16{0}, mEcho, 1)
+	_ = qp
+	// 6: call with a capability (second export)
+	sc.step("call-with-cap")
+	local := sc.keep(b.srv.client())
+	b.call("echo-cap", sc.ctx, bc, mEcho, 1, local, false)
+	// 7: getcap (second import)
+	sc.step("getcap")
+	r := b.call("getcap", sc.ctx, bc, mGetCap, 2, nil, true)
+	if r.cap != nil {
+		sc.keep(r.cap)
+	}
+	// 8: a result capability that points back to us, with a pipelined call
+	// (embargo live; the peer withholds the Disembargo echo)
+	sc.step("loopcap")
+	p.setHoldMethod(mLoopCap, true)
+	var ans *capnp.Answer
+	var release capnp.ReleaseFunc
+	id := b.ops.begin("sendcall:loopcap")
+	b.guard("Client.SendCall/loopcap", func() {
+		ans, release = bc.SendCall(sc.ctx, capnp.Send{
+			Method:   capnp.Method{InterfaceID: ifaceID, MethodID: mLoopCap},
+			ArgsSize: capnp.ObjectSize{DataSize: 8, PointerCount: 1},
+			PlaceArgs: func(s capnp.Struct) error {
+				cid := s.Message().AddCap(local.AddRef())
+				return s.SetPtr(0, capnp.NewInterface(s.Segment(), cid).ToPtr())
+			},
+		})
+	})
+	b.ops.end(id)
+	if ans != nil {
+		pdone := make(chan struct{})
+		b.wg.Add(1)
+		go func() {
+			defer b.wg.Done()
+			defer close(pdone)
+			id := b.ops.begin("call:pipelined-on-loopcap")
+			defer b.ops.end(id)
+			b.guard("Answer.PipelineSend", func() {
+				a2, rel2 := ans.PipelineSend(sc.ctx, []capnp.PipelineOp{{Field: 0}}, capnp.Send{
+					Method:   capnp.Method{InterfaceID: ifaceID, MethodID: mEcho},
+					ArgsSize: capnp.ObjectSize{DataSize: 8, PointerCount: 1},
+				})
+				a2.Struct()
+				rel2()
+			})
+		}()
+		sc.wait("pipelined-seen", func() bool { return p.sawCall(mEcho, 2) != nil }, pdone)
+		p.releaseMethod(mLoopCap)
+		id = b.ops.begin("call:loopcap-result")
+		b.guard("Answer.Struct/loopcap", func() { ans.Struct() })
+		b.ops.end(id)
+		id = b.ops.begin("join-pipelined")
+		<-pdone
+		b.ops.end(id)
+		sc.wait("disembargo-request", func() bool { return p.sawKind(rpccp.Message_Which_disembargo, 1) })
+		defer func() {
+			id := b.ops.begin("release:loopcap-answer")
+			b.guard("ReleaseFunc", func() { release() })
+			b.ops.end(id)
+		}()
+	}
+	// 9: last injection point, everything is live
+	sc.step("all-live")
+	b.call("echo-after", sc.ctx, bc, mEcho, 3, nil, false)
+}
+
+// injectAll is the step hook's payload.
+func (cs *c08case) injectAll(sc *sctx) {
+	b := sc.b
+	p := b.peer
+	sc.markHostile()
+	for n, kind := range cs.kinds {
+		if cs.aborted {
+			break
+		}
+		b.action = kind
+		mark := p.logLen()
+		var h hostile
+		switch {
+		case cs.mode == "bytes":
+			h = cs.bytesItem(sc, kind)
+		default:
+			h = genHostile(cs.rng.Fork(), kind, p.view())
+			b.rec.Logf("ITEM %s", h.desc)
+			for _, segs := range h.msgs {
+				p.send(segs)
+			}
+		}
+		cs.items = append(cs.items, h.desc)
+		b.rec.Count("hostile_items", 1)
+		b.rec.Count("hostile_kind_"+kind, 1)
+		if h.desc == "" {
+			continue
+		}
+		if h.ends && cs.mode == "bytes" {
+			// framing is (possibly) out of sync: the only sound expectation
+			// is that EOF ends the connection.
+			sl := b.lk.(*streamLink)
+			sl.PeerCloseWrite()
+			p.waitFor("probe:shutdown-after-eof", func() bool { return false })
+			cs.aborted = true
+			cs.classify(b, kind, h, mark, true)
+			break
+		}
+		// probe: a Bootstrap with a fresh id must be answered unless the
+		// Conn chose to shut the connection down.
+		cs.probes++
+		pq := probeBase + uint32(n)*16 + cs.probes
+		p.mu.Lock()
+		p.myQ[pq] = "open"
+		p.mu.Unlock()
+		p.send(mkBootstrap(pq))
+		alive := p.waitFor("probe", func() bool { return p.sawReturn(pq) != nil })
+		if !alive {
+			cs.aborted = true
+		}
+		cs.classify(b, kind, h, mark, !alive)
+	}
+	b.action = "after-injection"
+	if len(cs.kinds) > 0 {
+		b.action = cs.kinds[len(cs.kinds)-1]
+	}
+}
+
+// classify records the Conn's reaction to one hostile item (evidence only:
+// every reaction of the allowed set is accepted).
+func (cs *c08case) classify(b *bench, kind string, h hostile, mark int, closed bool) {
+	p := b.peer
+	p.mu.Lock()
+	var sawAbort, sawUnimpl, sawExc, sawRes bool
+	for _, m := range p.log[mark:] {
+		switch m.which {
+		case rpccp.Message_Which_abort:
+			sawAbort = true
+		case rpccp.Message_Which_unimplemented:
+			sawUnimpl = true
+		case rpccp.Message_Which_return:
+			if h.hasQ && m.id == h.qid {
+				if m.retWhich == rpccp.Return_Which_exception {
+					sawExc = true
+				} else {
+					sawRes = true
+				}
+			}
+		}
+	}
+	p.mu.Unlock()
+	cls := "tolerated"
+	switch {
+	case sawAbort:
+		cls = "abort"
+	case closed:
+		cls = "closed-without-abort"
+	case sawExc:
+		cls = "exception-return"
+	case sawUnimpl:
+		cls = "unimplemented-echo"
+	case sawRes:
+		cls = "results-return"
+	}
+	b.rec.Count("reaction_"+cls, 1)
+	b.rec.Count("reaction_"+kind+"_"+cls, 1)
+	b.rec.Distinct(common.HashString(kind + "|" + h.desc + "|" + cls))
+}
+
+// bytesItem sends one byte-level hostile item over a stream link.
+func (cs *c08case) bytesItem(sc *sctx, kind string) hostile {
+	b := sc.b
+	sl := b.lk.(*streamLink)
+	r := cs.rng.Fork()
+	v := b.peer.view()
+	switch kind {
+	case "ptr-corrupt":
+		base := validMessage(r, v)
+		segs, what := corruptPointer(r, base.msgs[0])
+		sl.PeerSendSegs(segs)
+		return hostile{kind: kind, desc: "ptr-corrupt[base=" + base.kind + " " + what + "]", qid: base.qid, hasQ: base.hasQ}
+	case "truncated-frame":
+		base := validMessage(r, v)
+		fr := frameSegs(base.msgs[0])
+		cut := 1 + r.Intn(len(fr)-1)
+		if r.Chance(1, 3) {
+			cut = r.PickInt(1, 4, 7, 8, 9, len(fr)-1)
+			if cut >= len(fr) {
+				cut = len(fr) - 1
+			}
+		}
+		if sl.rwc.packed {
+			pk := refPack(fr)
+			if cut >= len(pk) {
+				cut = len(pk) - 1
+			}
+			sl.PeerSendRawWire(pk[:cut])
+		} else {
+			sl.PeerSendRawWire(fr[:cut])
+		}
+		return hostile{kind: kind, desc: fmt.Sprintf("truncated-frame[base=%s cut=%d/%d]", base.kind, cut, len(fr)), ends: true}
+	case "hostile-header":
+		var hdr []byte
+		var what string
+		switch r.Intn(7) {
+		case 0:
+			hdr = make([]byte, 8)
+			binary.LittleEndian.PutUint32(hdr, 0xFFFFFFFF)
+			what = "segments=2^32"
+		case 1:
+			hdr = make([]byte, 8)
+			binary.LittleEndian.PutUint32(hdr, 512)
+			what = "segments=513"
+		case 2:
+			hdr = make([]byte, 8)
+			binary.LittleEndian.PutUint32(hdr[4:], 0xFFFFFFFF)
+			what = "size=2^32-1 words"
+		case 3:
+			hdr = make([]byte, 8)
+			binary.LittleEndian.PutUint32(hdr[4:], 1<<29)
+			what = "size=2^29 words"
+		case 4:
+			n := 511
+			hdr = make([]byte, 4+4*(n+1))
+			binary.LittleEndian.PutUint32(hdr, uint32(n))
+			for i := 0; i <= n; i++ {
+				binary.LittleEndian.PutUint32(hdr[4+4*i:], 0x00FFFFFF)
+			}
+			what = "512 segments of 2^24-1 words"
+		case 5:
+			hdr = make([]byte, 8)
+			binary.LittleEndian.PutUint32(hdr[4:], 0)
+			what = "one empty segment"
+		default:
+			hdr = make([]byte, 8)
+			binary.LittleEndian.PutUint32(hdr[4:], 1<<20)
+			what = "size=2^20 words then EOF"
+		}
+		if sl.rwc.packed {
+			sl.PeerSendRawWire(refPack(hdr))
+		} else {
+			sl.PeerSendRawWire(hdr)
+		}
+		return hostile{kind: kind, desc: "hostile-header[" + what + "]", ends: true}
+	case "garbage":
+		n := r.PickInt(1, 7, 8, 64, 200)
+		sl.PeerSendRawWire(r.Bytes(n)[:n])
+		return hostile{kind: kind, desc: fmt.Sprintf("garbage[%d bytes]", n), ends: true}
+	}
+	// message-level item over the stream
+	h := genHostile(r, kind, v)
+	for _, segs := range h.msgs {
+		sl.PeerSendSegs(segs)
+	}
+	return h
+}
+
+var bytesKinds = []string{"ptr-corrupt", "ptr-corrupt", "ptr-corrupt", "ptr-corrupt", "truncated-frame", "hostile-header", "garbage", "call", "return"}
 
 func runC08(cfg *common.Config, rec *common.Recorder) {
-	rec.Inconclusive("not implemented")
+	for i := cfg.Start; i < cfg.Start+cfg.Count; i++ {
+		rng := common.NewRNG(common.CaseSeed(cfg.Seed, cfg.Prop+"/"+cfg.Mode, i))
+		cs := &c08case{rec: rec, mode: cfg.Mode, rng: rng}
+		switch cfg.Mode {
+		case "fuzz":
+			cs.link = "pipe"
+		case "fuzzstream", "bytes":
+			cs.link = []string{"stream", "packed"}[rng.Intn(2)]
+		default:
+			rec.Inconclusive("unknown mode " + cfg.Mode)
+			rec.Finish()
+			return
+		}
+		deadlines := rng.Bool()
+		cs.inject = 1 + rng.Intn(c08Steps)
+		n := 1 + rng.Intn(8)
+		for k := 0; k < n; k++ {
+			if cfg.Mode == "bytes" {
+				cs.kinds = append(cs.kinds, bytesKinds[rng.Intn(len(bytesKinds))])
+			} else {
+				cs.kinds = append(cs.kinds, hostileKinds[rng.Intn(len(hostileKinds))])
+			}
+		}
+		rec.Case(i, fmt.Sprintf("link=%s inject@%d %v", cs.link, cs.inject, cs.kinds))
+		var b *bench
+		var bmu sync.Mutex
+		get := func() *bench {
+			bmu.Lock()
+			defer bmu.Unlock()
+			return b
+		}
+		installYield(rng.Uint64(), true)
+		out := runWatched(rec, i, "C08", get, func() {
+			nb := newBench(rec, i, "C08", benchOpts{link: cs.link, deadlines: deadlines})
+			nb.scenario = "history"
+			nb.action = "before-injection"
+			nb.extra = func() interface{} {
+				return map[string]interface{}{"inject_at_step": cs.inject, "kinds": cs.kinds, "items": cs.items}
+			}
+			bmu.Lock()
+			b = nb
+			bmu.Unlock()
+			sc := newSctx(nb)
+			sc.stepHook = func(sc *sctx, n int, name string) {
+				if n == cs.inject {
+					cs.injectAll(sc)
+				}
+			}
+			c08History(sc)
+			nb.setStep("after-history")
+			nb.checkLocksFree("after-history")
+			nb.finish(false)
+			sc.cancel()
+			sc.releaseAll()
+			nb.checkLocksFree("after-release")
+		})
+		rec.Count("connections", 1)
+		rec.Count("connections_"+cs.link, 1)
+		if cs.aborted {
+			rec.Count("connections_shut_down_by_conn", 1)
+		}
+		if rec.WantSample() && len(cs.items) > 0 {
+			s := map[string]interface{}{"link": cs.link, "inject_at_step": cs.inject, "items": cs.items}
+			if bb := get(); bb != nil {
+				s["conn_sent"] = bb.peer.logSummary(10)
+				s["reported"] = bb.rep.list()
+			}
+			rec.Sample(s)
+		}
+		if out != caseOK {
+			rec.AbortBatch(i + 1)
+		}
+	}
+	reportYieldSites(rec)
 	rec.Finish()
 }
